@@ -1,14 +1,14 @@
 package main
 
 import (
-	"regexp"
 	"bytes"
-	"fmt"
 	"context"
 	"errors"
+	"fmt"
 	"io"
 	"net"
 	"os"
+	"regexp"
 	"runtime/debug"
 	"sync"
 	"time"
@@ -29,8 +29,8 @@ func init() {
 // fakeTransporter: no listener; it lets the engine be "running" without a socket.
 type fakeTransporter struct{}
 
-func (fakeTransporter) Close() error                                { return nil }
-func (fakeTransporter) Shutdown(ctx context.Context) error          { return nil }
+func (fakeTransporter) Close() error                               { return nil }
+func (fakeTransporter) Shutdown(ctx context.Context) error         { return nil }
 func (fakeTransporter) ListenAndServe(onData network.OnData) error { select {} }
 
 // newRunningEngine builds a real route.Engine (real http1 server inside), marks it running.
@@ -61,13 +61,14 @@ func (timeoutErr) Temporary() bool { return true }
 
 // scriptConn is a net.Conn fed from a list of fragments; writes are captured.
 type scriptConn struct {
-	mu       sync.Mutex
-	frags    [][]byte
-	endErr   error // returned once the fragments are exhausted (default io.EOF)
-	out      bytes.Buffer
+	mu            sync.Mutex
+	frags         [][]byte
+	endErr        error // returned once the fragments are exhausted (default io.EOF)
+	out           bytes.Buffer
 	writeErrAfter int // fail writes once this many bytes were written (<0: never)
-	closed   bool
-	reads    int
+	closed        bool
+	reads         int
+	endReads      int // reads that found the script exhausted: on a network these wait for bytes the peer never sends
 	// onRead, if set, is called before each Read with the number of bytes written so far
 	onRead func(written int)
 }
@@ -93,6 +94,7 @@ func (c *scriptConn) Read(p []byte) (int, error) {
 		return 0, errors.New("use of closed connection")
 	}
 	if len(c.frags) == 0 {
+		c.endReads++
 		return 0, c.endErr
 	}
 	n := copy(p, c.frags[0])
@@ -115,9 +117,13 @@ func (c *scriptConn) Write(p []byte) (int, error) {
 	}
 	return c.out.Write(p)
 }
-func (c *scriptConn) Close() error                       { c.mu.Lock(); c.closed = true; c.mu.Unlock(); return nil }
-func (c *scriptConn) LocalAddr() net.Addr                { return &net.TCPAddr{IP: net.IPv4(127, 0, 0, 1), Port: 8888} }
-func (c *scriptConn) RemoteAddr() net.Addr               { return &net.TCPAddr{IP: net.IPv4(127, 0, 0, 1), Port: 9999} }
+func (c *scriptConn) Close() error { c.mu.Lock(); c.closed = true; c.mu.Unlock(); return nil }
+func (c *scriptConn) LocalAddr() net.Addr {
+	return &net.TCPAddr{IP: net.IPv4(127, 0, 0, 1), Port: 8888}
+}
+func (c *scriptConn) RemoteAddr() net.Addr {
+	return &net.TCPAddr{IP: net.IPv4(127, 0, 0, 1), Port: 9999}
+}
 func (c *scriptConn) SetDeadline(t time.Time) error      { return nil }
 func (c *scriptConn) SetReadDeadline(t time.Time) error  { return nil }
 func (c *scriptConn) SetWriteDeadline(t time.Time) error { return nil }
